@@ -842,6 +842,14 @@ func (env *c18env) mkOp(rec *opRec) func() string {
 			before := env.observe(t, in, "later")
 			// calls that go to the storage backend (the default backend without a directory fails
 			// harmlessly); what matters here is what they do to configuration
+			// per-call backend options of the types a backend might understand
+			var bo any = "percall"
+			switch op.I % 5 {
+			case 3:
+				bo = storage.FileSystemOptions{Path: fmt.Sprintf("/c18/percall-%d", op.I)}
+			case 4:
+				bo = &storage.FileSystemOptions{Path: fmt.Sprintf("/c18/percall-%d", op.I)}
+			}
 			if in.kind == "W" {
 				switch op.I % 3 {
 				case 0:
@@ -853,7 +861,7 @@ func (env *c18env) mkOp(rec *opRec) func() string {
 						t.violate("leak:writer:per-call-options-modified", "StoreWithOptions wrote into the options set it was given")
 					}
 				default:
-					_ = in.w.StoreWithOptions(env.doc, &writer.Options{StoreOptions: &storage.StoreOptions{NoClobber: true, BackendOptions: "percall"}})
+					_ = in.w.StoreWithOptions(env.doc, &writer.Options{StoreOptions: &storage.StoreOptions{NoClobber: true, BackendOptions: bo}})
 				}
 			} else {
 				switch op.I % 3 {
@@ -866,7 +874,7 @@ func (env *c18env) mkOp(rec *opRec) func() string {
 						t.violate("leak:reader:per-call-options-modified", "RetrieveWithOptions wrote into the options set it was given")
 					}
 				default:
-					_, _ = in.r.RetrieveWithOptions("some-id", &reader.Options{RetrieveOptions: &storage.RetrieveOptions{BackendOptions: "percall"}})
+					_, _ = in.r.RetrieveWithOptions("some-id", &reader.Options{RetrieveOptions: &storage.RetrieveOptions{BackendOptions: bo}})
 				}
 			}
 			t.probes["store/retrieve call on a live instance"]++
